@@ -16,24 +16,28 @@ struct coord
     std::string tag; // fin nan +inf -inf
     long long k;     // value * K for fin (clamped for far-out values)
     long double v;   // the actual value (before scaling by 2^e)
+    int steps;       // lo / hi: how many floating-point numbers away
 };
 
-static coord fin(long long k) { return coord{"fin", k, (long double) k / K}; }
+static coord fin(long long k) { return coord{"fin", k, (long double) k / K, 0}; }
 // the floating-point neighbour (in the numeric type of the run) just below / above k / K
-static coord nearby(long long k, bool below) { return coord{below ? "lo" : "hi", k, (long double) k / K}; }
+static coord nearby(long long k, bool below, int steps = 1) { return coord{below ? "lo" : "hi", k, (long double) k / K, steps}; }
 template <typename T> static T value_of(coord const& c, int e)
 {
     T v = c.tag != "nan" && c.tag != "+inf" && c.tag != "-inf" && std::fabs(c.v) < 1e18L ? (T) std::ldexp(c.v, e) : (T) c.v;
-    if (c.tag == "lo") v = std::nextafter(v, -std::numeric_limits<T>::infinity());
-    if (c.tag == "hi") v = std::nextafter(v, std::numeric_limits<T>::infinity());
+    for (int i = 0; i < c.steps; ++i)
+    {
+        if (c.tag == "lo") v = std::nextafter(v, -std::numeric_limits<T>::infinity());
+        if (c.tag == "hi") v = std::nextafter(v, std::numeric_limits<T>::infinity());
+    }
     return v;
 }
-static coord far(long double v) { return coord{"fin", v > 0 ? 1000000000LL : -1000000000LL, v}; }
+static coord far(long double v) { return coord{"fin", v > 0 ? 1000000000LL : -1000000000LL, v, 0}; }
 static coord tagc(char const* t)
 {
     long double inf = std::numeric_limits<long double>::infinity();
     std::string s(t);
-    return coord{s, 0, s == "nan" ? std::numeric_limits<long double>::quiet_NaN() : (s == "+inf" ? inf : -inf)};
+    return coord{s, 0, s == "nan" ? std::numeric_limits<long double>::quiet_NaN() : (s == "+inf" ? inf : -inf), 0};
 }
 
 struct binning { int bx, by; long long xmin, sx, ymin, sy; }; // scaled by K; by == 0 means one-dimensional
@@ -65,10 +69,13 @@ static void fill1(binning const& b, coord const& x, coord const& y, int e)
         if (twod) pr.add(0, xv, yv, T(1)); else pr.add(0, xv, T(1));
         return T(1);
     };
-    auto integrand = hep::make_integrand<T>(fn, 1, make_params<T>(b, e, "d"));
+    // (a second distribution with the same binning that is never filled: nothing may spill over into it)
+    auto integrand = hep::make_integrand<T>(fn, 1, make_params<T>(b, e, "d"), make_params<T>(b, e, "guard"));
     auto r = hep::plain(integrand, std::vector<std::size_t>{1}, hep::make_plain_chkpt<T>(),
         hep::callback<hep::default_plain_chkpt<T>>(hep::callback_mode::silent));
     auto const& bins = r.results()[0].distributions()[0].results();
+    long long spill = 0;
+    for (auto const& gb : r.results()[0].distributions()[1].results()) if (gb.sum() != T() || gb.sum_of_squares() != T() || gb.non_zero_calls() != 0) ++spill;
     long long got = -1, nfilled = 0, callsok = 1;
     for (std::size_t f = 0; f != bins.size(); ++f)
     {
@@ -76,7 +83,41 @@ static void fill1(binning const& b, coord const& x, coord const& y, int e)
         if (bins[f].calls() != 1) callsok = 0;
     }
     vt::ev("Fill1").s("T", vt::type_name<T>::get()).i("exp", e).a("p", plist(b)).s("xt", x.tag).i("x", x.k).s("yt", twod ? y.tag : "fin")
-        .i("y", twod ? y.k : K / 2).i("got", got).i("nfilled", nfilled).i("nbins", (long long) bins.size()).i("callsok", callsok).emit();
+        .i("y", twod ? y.k : K / 2).i("got", got).i("nfilled", nfilled).i("nbins", (long long) bins.size()).i("callsok", callsok).i("spill", spill).emit();
+}
+
+// ranges and bin counts whose bin size has no short binary representation (100 / 5, 100 / 10, 1000 / 25 ...): the floating-point numbers
+// next to every edge, up to three steps away on either side - in particular those just below the upper end of the range
+template <typename T>
+static void fill1_awkward(vt::rng& g, bool thorough)
+{
+    static int const counts[6] = {5, 10, 20, 25, 50, 100};
+    for (int ci = 0; ci != 6; ++ci)
+    {
+        int bx = counts[ci];
+        long long range = ci < 3 ? 100 : 1000;
+        for (int twod = 0; twod != 2; ++twod)
+        {
+            if (twod && ci != 1 && ci != 3) continue;
+            binning b{bx, twod ? 5 : 0, 0, range * K / bx, 0, twod ? 100 * K / 5 : K};
+            std::vector<long long> edges;
+            for (long long j = 0; j <= bx; ++j) if (bx <= 20 || j <= 1 || j >= bx - 1 || j == bx / 2 || (thorough && j % 7 == 0) || g.below(12) == 0) edges.push_back(j);
+            for (long long j : edges)
+                for (int steps = 1; steps <= 4; ++steps)
+                    for (int below = 0; below != 2; ++below)
+                    {
+                        if (!thorough && j != bx && j != 0 && g.below(2)) continue;
+                        coord x = nearby(b.xmin + j * b.sx, below != 0, steps);
+                        if (!twod) fill1<T>(b, x, fin(K / 2), 0);
+                        else
+                        {
+                            fill1<T>(b, x, fin(b.ymin + b.sy / 2), 0);
+                            fill1<T>(b, fin(b.xmin + b.sx / 2), nearby(b.ymin + (j % 6) * b.sy, below != 0, steps), 0);
+                            fill1<T>(b, x, nearby(b.ymin + 5 * b.sy, true, steps), 0);
+                        }
+                    }
+        }
+    }
 }
 
 template <typename T>
@@ -243,6 +284,7 @@ int main(int argc, char** argv)
     fill1_family<float>(g, thorough);
     fill1_family<double>(g, thorough);
     fill1_family<long double>(g, thorough);
+    fill1_awkward<float>(g, thorough); fill1_awkward<double>(g, thorough); fill1_awkward<long double>(g, thorough);
     int runs = thorough ? 60 : 12;
     for (int r = 0; r != runs; ++r)
     {
